@@ -43,7 +43,7 @@ def r_C01visitors(root):
         return v, cls
     def call(name, v, node, children):
         f, ps = method(name)
-        env = dict(consts); env.update(exprs.ctor_env())
+        env = dict(consts); env.update(exprs.type_env()); env.update(exprs.ctor_env())
         env.update({"__functions__": fns, "__classes__": exprs.classes_env(), "__module__": t, ps[0]: v, ps[1]: node, ps[2]: children,
                     "TextXSyntaxError": errs("TextXSyntaxError"), "TextXSemanticError": errs("TextXSemanticError"),
                     "ClassCrossRef": pyeval.PyFn(lambda cls_name=None, position=0: HS({".kind": "ClassCrossRef", ".cls_name": cls_name, ".position": position}))})
@@ -112,6 +112,24 @@ def r_C01visitors(root):
     v, _c = new_visitor(); e = E("StrMatch", to_match="x")
     r = call("visit_expression", v, node, [e])
     rep("C01.a", "visit_expression", "e", r[0] == "ret" and r[1] is e, "an expression without predicate becomes %s; documented: itself" % desc(r))
+    # ---------------------------------------------------------------- choices and sequences keep their members, in written order
+    def sm(txt): return E("StrMatch", to_match=txt)
+    inner_seq = E("Sequence", nodes=[sm("p"), sm("q")]); inner_ch = E("OrderedChoice", nodes=[sm("u"), sm("v")])
+    for meth, kind, members, what in (("visit_choice", "OrderedChoice", [sm("<"), sm("<="), sm("=")], "'<' | '<=' | '='  (an alternative that is a prefix of a later one comes first)"),
+                                      ("visit_choice", "OrderedChoice", [sm("else"), E("RegExMatch", to_match="\\w+"), sm("e")], "'else' | /\\w+/ | 'e'"),
+                                      ("visit_choice", "OrderedChoice", [inner_seq, sm("x")], "(p q) | x"),
+                                      ("visit_sequence", "Sequence", [sm("a"), inner_seq, sm("b")], "a (p q) b  (a bracketed sequence stays one member)"),
+                                      ("visit_sequence", "Sequence", [sm("bb"), sm("a"), sm("bb")], "'bb' 'a' 'bb'"),
+                                      ("visit_sequence", "Sequence", [inner_ch, sm("x")], "(u | v) x")):
+        v, _c = new_visitor(); before = list(members); inner_before = [list(m_.get(".nodes", [])) for m_ in members]
+        r = call(meth, v, node, list(members))
+        got = r[1].get(".nodes") if r[0] == "ret" and isinstance(r[1], dict) else None
+        ok = r[0] == "ret" and isinstance(r[1], dict) and r[1].get(".kind") == kind and isinstance(got, list) and len(got) == len(before) and all(x is y for x, y in zip(got, before)) and [list(m_.get(".nodes", [])) for m_ in members] == inner_before
+        rep("C01.a", meth, what, ok, "%s  becomes %s; documented: %s over exactly these members in the written order (PEG: the first alternative that matches wins; a bracketed group is one member)" % (what, desc(r) if got is None else "%s(%s)" % (r[1].get(".kind"), ", ".join(str(x.get(".to_match", x.get(".kind"))) for x in got)), kind))
+    for meth in ("visit_choice", "visit_sequence"):
+        v, _c = new_visitor(); e = sm("only")
+        r = call(meth, v, node, [e])
+        rep("C01.a", meth, "a single member", r[0] == "ret" and r[1] is e, "%s with one member becomes %s; documented: that member itself" % (meth, desc(r)))
     # ---------------------------------------------------------------- assignments
     ASG = {"=": ("Sequence", "__asgn_plain", M1), "+=": ("OneOrMore", "__asgn_oneormore", MP), "*=": ("ZeroOrMore", "__asgn_zeroormore", MZ), "?=": ("Optional", "__asgn_optional", MO)}
     def rhs(name="INT"): return E("RegExMatch", rule_name=name, root=True)
